@@ -393,6 +393,13 @@ pub fn field_ark(f: &str, o: &str, arg: &str, st: &mut Vec<V>) -> Option<String>
             "into_bigint" => { let a = $pop(st); return Some(h(&a.into_bigint().to_bytes_le())) }
             "be_mod_order" => { st.push($V(<$T>::from_be_bytes_mod_order(&unhex(arg)))) }
             "le_mod_order_trait" => { st.push($V(<$T as PrimeField>::from_le_bytes_mod_order(&unhex(arg)))) }
+            "deser_modes" => { let b = unhex(arg);
+                use ark_serialize::{Compress, Validate};
+                let mut out = vec![];
+                for (c, v) in [(Compress::Yes, Validate::Yes), (Compress::No, Validate::Yes), (Compress::Yes, Validate::No), (Compress::No, Validate::No)] {
+                    out.push(match <$T>::deserialize_with_mode(&b[..], c, v) { Ok(x) => format!("ok {}", h(&x.to_bytes_le())), Err(_) => "err".to_string() });
+                }
+                return Some(out.join(" | ")) }
             "deser" => { let b = unhex(arg); return Some(match <$T>::deserialize_compressed(&b[..]) { Ok(x) => format!("ok {}", h(&x.to_bytes_le())), Err(e) => format!("err {:?}", e) }) }
             "deser_te" => { let b = unhex(arg); return Some(match <$T>::deserialize_with_flags::<_, TEFlags>(&b[..]) { Ok((x, fl)) => format!("ok {} {:?}", h(&x.to_bytes_le()), fl), Err(e) => format!("err {:?}", e) }) }
             "deser_sw" => { let b = unhex(arg); return Some(match <$T>::deserialize_with_flags::<_, SWFlags>(&b[..]) { Ok((x, fl)) => format!("ok {} {:?}", h(&x.to_bytes_le()), fl), Err(e) => format!("err {:?}", e) }) }
